@@ -26,10 +26,14 @@ def enc_arg1(tags):
 class RuleT:
     def __init__(self, path, cond, cast=None):
         self.path, self.cond, self.cast = path, cond, list(cast or [])   # cast: list of "bool" / "int"
+        self.empty_cast = False     # cast={} (given, but empty) rather than cast=None: a different object for Rule.__eq__
+
+    def cast_given(self):
+        return bool(self.cast) or self.empty_cast
 
     def cast_dict(self):
         if not self.cast:
-            return None
+            return {} if self.empty_cast else None
         from valida.casting import cast_string_to_bool
         return {str: (int if self.cast[-1] == "int" else cast_string_to_bool)} if len(self.cast) == 1 else \
             {str: (int if self.cast[0] == "int" else cast_string_to_bool)}
@@ -44,7 +48,7 @@ class RuleT:
         return f"(Build_ruleterm {self.path.coq()} {self.cond.coq(enc_arg1(tags))} {casts})"
 
     def descr(self):
-        return f"Rule({self.path.descr()}, {self.cond.descr()}, cast={self.cast[:1]})"
+        return f"Rule({self.path.descr()}, {self.cond.descr()}, cast={'{}' if self.empty_cast and not self.cast else self.cast[:1]})"
 
 
 def obs_rule_test(rt):
